@@ -118,8 +118,26 @@ package derive
 //@ ensures exists n string :: n in F && eq(typs, F[n]) && n in tm.generated && tm.generated[n]
 
 //@ func (tm *typesMap) isGenerated(typs []types.Type) (r bool)
-//@ assigns nothing
+//@ pure
+//@ reads-heap
 //@ ensures r ==> exists n string :: n in F && eq(typs, F[n]) && tm.generated[n]
+//@ ensures [none-registered] (forall n string :: n in F ==> !eq(typs, F[n])) ==> !r
+
+// C01: the work list. ToGenerate returns exactly the registered type lists that
+// are not generated yet, in registration order; Done says none is left.
+//@ func (tm *typesMap) ToGenerate() (r [][]types.Type)
+//@ assigns nothing
+//@ ensures [only-pending] forall j int :: 0 <= j && j < len(r) ==> !derive.typesMap.isGenerated(tm, r[j]) && exists i int :: 0 <= i && i < len(tm.typss) && r[j] == tm.typss[i]
+//@ ensures [all-pending] forall i int :: 0 <= i && i < len(tm.typss) && !derive.typesMap.isGenerated(tm, tm.typss[i]) ==> exists j int :: 0 <= j && j < len(r) && r[j] == tm.typss[i]
+//@ ensures [registration-order] forall a int, b int :: 0 <= a && a < b && b < len(r) ==> exists c int, d int :: 0 <= c && c < d && d < len(tm.typss) && r[a] == tm.typss[c] && r[b] == tm.typss[d]
+//@ loop 1: invariant forall j int :: 0 <= j && j < len(typss) ==> !derive.typesMap.isGenerated(tm, typss[j]) && exists i int :: 0 <= i && i < $i && typss[j] == tm.typss[i]
+//@ loop 1: invariant forall i int :: 0 <= i && i < $i && !derive.typesMap.isGenerated(tm, tm.typss[i]) ==> exists j int :: 0 <= j && j < len(typss) && typss[j] == tm.typss[i]
+//@ loop 1: invariant forall a int, b int :: 0 <= a && a < b && b < len(typss) ==> exists c int, d int :: 0 <= c && c < d && d < $i && typss[a] == tm.typss[c] && typss[b] == tm.typss[d]
+
+//@ func (tm *typesMap) Done() (r bool)
+//@ assigns nothing
+//@ ensures [none-pending] r <==> forall i int :: 0 <= i && i < len(tm.typss) ==> derive.typesMap.isGenerated(tm, tm.typss[i])
+//@ loop 1: invariant forall i int :: 0 <= i && i < $i ==> derive.typesMap.isGenerated(tm, tm.typss[i])
 
 // ---------------------------------------------------------------------------
 // fields.go
@@ -358,6 +376,13 @@ package derive
 // Writing generated code touches only generator-internal state (printer, type tables).
 //@ func (pkg *pkg) Generate() (generated bool, err error)
 //@ assigns any derive.printer.hasContent, any derive.printer.indent, any derive.printer.w, any derive.printer.imports, any derive.typesMap.generated, any derive.typesMap.funcToTyps, any derive.typesMap.typss
+//@ requires [generators-non-nil] pkg.generators != nil && forall n string :: n in pkg.generators ==> pkg.generators[n] != nil
+// C01: on success no plugin has a registered type list left to generate (every
+// requested helper was handed to its plugin's Generate); termination is not shown.
+//@ ensures [work-list-empty] err == nil ==> derive.pkg.Done(pkg)
+//@ loop 1: invariant pkg.generators == old(pkg.generators) && pkg.plugins == old(pkg.plugins)
+//@ loop 2: invariant pkg.generators == old(pkg.generators) && pkg.plugins == old(pkg.plugins)
+//@ loop 3: invariant pkg.generators == old(pkg.generators) && pkg.plugins == old(pkg.plugins)
 
 //@ extern func sort.Strings(x []string) ()
 //@ assigns nothing
@@ -429,10 +454,19 @@ package derive
 
 //@ extern func (g *Generator) Done() (r bool)
 //@ pure
+//@ reads-heap
+
+//@ extern func (g *Generator) ToGenerate() (r [][]types.Type)
+//@ pure
+//@ reads-heap
+
+//@ extern func (g *Generator) Generate(typs []types.Type) (err error)
+//@ assigns any derive.printer.hasContent, any derive.printer.indent, any derive.printer.w, any derive.printer.imports, any derive.typesMap.generated, any derive.typesMap.funcToTyps, any derive.typesMap.typss
 
 //@ func (pkg *pkg) Done() (r bool)
 //@ noinv
-//@ assigns nothing
+//@ pure
+//@ reads-heap
 //@ requires [generators-non-nil] pkg.generators != nil && forall n string :: n in pkg.generators ==> pkg.generators[n] != nil
 //@ ensures [determinate] r <==> forall n string :: n in pkg.generators ==> derive.Generator.Done(pkg.generators[n])
 //@ loop 1: invariant forall n string :: visited(n) ==> derive.Generator.Done(pkg.generators[n])
